@@ -669,7 +669,13 @@ pub fn lattice(input: &str, out: &str) {
         let cart = farr(&e, "cart");
         let (ex, ey) = (cart[0] / scale, cart[1] / scale);
         let phi = norm_angle(gi(&e, "c"), gi(&e, "s"));
-        let tr = Transform2::new(phi, (x, y));
+        // a rotation, or a mirrored copy (reflection x -> -x applied after the rotation)
+        let tr = if e["mir"].as_bool().unwrap_or(false) {
+            let (c, s) = (phi.cos(), phi.sin());
+            Transform2::from(Matrix3::new(-c, s, x, s, c, y, 0., 0., 1.))
+        } else {
+            Transform2::new(phi, (x, y))
+        };
         let lin0 = mat(&tr);
         let mut bad: Vec<String> = vec![];
         let r = catch_unwind(AssertUnwindSafe(|| {
@@ -744,6 +750,37 @@ pub fn lattice(input: &str, out: &str) {
                     if !found {
                         bad.push(format!("image ({}, {}) missing", ev[0], ev[1]));
                         break;
+                    }
+                }
+            }
+            // the nearest-first enumeration: the same translates, none twice, never the cell itself
+            let (ka, kb) = (k, (k + 1) % 4);
+            let within: Vec<Matrix3<f64>> = cell.periodic_images_within(tr, ka, kb).map(|t| mat(&t)).collect();
+            if within.len() as i64 != (2 * ka + 1) * (2 * kb + 1) - 1 {
+                bad.push(format!("periodic_images_within gives {} images for {} x {} shells", within.len(), ka, kb));
+            } else {
+                let mut used = vec![false; within.len()];
+                'outer: for n in -ka..=ka {
+                    for m in -kb..=kb {
+                        if n == 0 && m == 0 {
+                            continue;
+                        }
+                        let (px, py) = (ex + (n as f64 * ax + m as f64 * bx) / u, ey + m as f64 * by / u);
+                        let mut found = false;
+                        for (i, w) in within.iter().enumerate() {
+                            if !used[i] && (w[(0, 2)] - px).abs() <= tol && (w[(1, 2)] - py).abs() <= tol
+                                && w[(0, 0)] == lin0[(0, 0)] && w[(0, 1)] == lin0[(0, 1)]
+                                && w[(1, 0)] == lin0[(1, 0)] && w[(1, 1)] == lin0[(1, 1)]
+                            {
+                                used[i] = true;
+                                found = true;
+                                break;
+                            }
+                        }
+                        if !found {
+                            bad.push(format!("periodic_images_within misses the image ({}, {}) or changes its orientation", n, m));
+                            break 'outer;
+                        }
                     }
                 }
             }
